@@ -90,7 +90,7 @@ def build_model(full=False):
                 os.replace(os.path.join(COQ, "Extract", f), os.path.join(OCAML, f))
         for drv in [f[:-3] for f in os.listdir(OCAML) if f.endswith("_driver.ml")]:
             exe = os.path.join(OCAML, drv)
-            srcs = ["model.mli", "model.ml", "conv.ml", "core_driver_lib.ml", drv + ".ml"]
+            srcs = ["model.mli", "model.ml", "conv.ml", "str_find.ml", "core_driver_lib.ml", drv + ".ml"]
             if not os.path.exists(exe) or os.path.getmtime(exe) < max(os.path.getmtime(os.path.join(OCAML, s)) for s in srcs):
                 rc, out2 = sh(["ocamlfind", "ocamlopt", "-w", "-a"] + srcs + ["-o", drv], cwd=OCAML, timeout=600)
                 out += out2
